@@ -1119,6 +1119,9 @@ func (a *AMF) onDeregistrationRequest(u *UE, plain []byte) [][]byte {
 		mcc, mnc, msin, err := refnas.DecodeSuci(id)
 		if err != nil || mcc+mnc+msin != u.Supi {
 			a.violate("deregistration/identity", "Deregistration Request identifies %s%s%s (%v), the UE is %s", mcc, mnc, msin, err, u.Supi)
+		} else if mcc != a.Cfg.MCC || mnc != a.Cfg.MNC {
+			// (the same digits split differently are another subscriber of another network)
+			a.violate("deregistration/suci-plmn", "Deregistration Request: SUCI home network %s/%s MSIN %s, configured %s/%s", mcc, mnc, msin, a.Cfg.MCC, a.Cfg.MNC)
 		}
 	}
 	switchOff := plain[3]&0x08 != 0
